@@ -34,6 +34,19 @@ FTYPE = 'FrameHeader.frame_type'
 DEFAULT_RESET = {'reset_pcs_av1': 'per-picture reset of the frame header before picture decision; the value is a placeholder (checked: both builders store frame_type on every path)'}
 
 
+def _assign_chain(e):
+    """(lhs, rhs) pairs of a possibly chained assignment a = b = c (each target gets the innermost value)"""
+    out = []
+    if not e or e[0] != 'a' or e[1] != '=':
+        return out
+    targets = [e[2]]
+    r = strip(e[3])
+    while r and r[0] == 'a' and r[1] == '=':
+        targets.append(r[2])
+        r = strip(r[3])
+    return [(t, r) for t in targets]
+
+
 def eq_pos_len(e):
     """all sub-expressions  position == X  (either side); returns list of pstr(X)"""
     out = []
@@ -115,7 +128,42 @@ def run(P, rep, tier):
                        ('reset compares with %s' % [pstr(x)[:30] for x in cmp_], not ok_cmp), ('reset value is not 0', not ok_zero), ('step is not position + 1', not ok_inc)) if c)))
             continue
         raise AnalysisBroken('counter update of an unrecognised shape at %s: %s' % (f.loc(ev), pstr(e)[:80]))
-    rep.floor('C19.COUNTER', 5)
+    # raises that are periodic without reading the counter (period 0: every picture): they, too, must be selected by the refresh type
+    for f in P.fns:
+        if f.lib != 'Encoder' or f.nocfg:
+            continue
+        for ev in f.events(('st',)):
+            e = ev['e']
+            if e[0] != 'a' or e[1] != '=' or last_field(strip(e[2])) not in (IDR, CRA) or strip(e[3])[0] != 'l' or strip(e[3])[1] == 0:
+                continue
+            conds = [strip(c) for k, c, l in f.ctl_chain(ev) if c is not None and k in ('if', 'else')]
+            on_len = [c for c in conds if any(x[0] == 'm' and x[1] == LEN for x in subexprs(c))]
+            if not on_len:
+                continue
+            lf = last_field(strip(e[2]))
+            typed = any(x[0] == 'm' and x[1] == REFRESH for c in conds for x in subexprs(c))
+            rep.ob('C19.COUNTER', 'raise:%s@%s' % (lf.split('.')[1], ev.get('l')), typed, f.loc(ev),
+                   ('%s raised under %s, selected by intra_refresh_type' % (lf.split('.')[1], pstr(on_len[0])[:50])) if typed else
+                   ('%s is raised for every picture under %s without consulting intra_refresh_type: with IDR refresh requested the pictures are coded as intra-only frames, not as key frames' % (lf.split('.')[1], pstr(on_len[0])[:50])))
+    # the period the protocol compares with is the configured one
+    CFG = 'EbSvtAv1EncConfiguration.intra_period_length'
+    for f in P.fns:
+        if f.lib != 'Encoder' or f.nocfg:
+            continue
+        for ev in f.events(('st',)):
+            for lhs, rhs in _assign_chain(ev['e']):
+                if last_field(strip(lhs)) != LEN or strip(lhs)[0] != 'm':
+                    continue
+                r = strip(rhs)
+                from_cfg = r[0] == 'm' and r[1] in (CFG, LEN)
+                auto = r[0] == 'c' and callee_name(r) == 'compute_default_intra_period' and any(
+                    c is not None and any(x[0] == 'm' and x[1] == CFG for x in subexprs(c)) and '-2' in pstr(strip(c)) for k, c, l in f.ctl_chain(ev))
+                ok = from_cfg or auto
+                rep.ob('C19.COUNTER', 'period@%s:%s' % (f.name, ev.get('l')), ok, f.loc(ev),
+                       ('period taken from the configuration' if from_cfg else 'period -2 (auto) replaced by the documented default') if ok else
+                       ('the configured period is replaced by %s under %s: the refresh distance is no longer the configured one (a period of -1 stops meaning "first picture only")' %
+                        (pstr(r)[:60], ' && '.join(pstr(strip(c))[:80] for k, c, l in f.ctl_chain(ev) if c is not None)[:160])))
+    rep.floor('C19.COUNTER', 8)
 
     # ---------------- KEYTYPE
     n = 0
